@@ -135,7 +135,8 @@ def run_wsgi_case(ctx, r, method, headers, edges):
         raise_at = r.get("raise_at")
         if fres.exc is not None and not (isinstance(fres.exc, recipes.BodyError) and raise_at is not None):
             ctx.violation(f"wsgi|fault|exception-on-early-close|{type(fres.exc).__name__}|{r['cls']}", dict(case, fault=f"close-after-{n}"), repr(fres.exc))
-        if fres.items != res.items[:len(fres.items)]:
+        nop = lambda items: [x for x in items if x != b": ping\n\n"]  # how many keep-alive pings fit in is a matter of timing
+        if nop(fres.items) != nop(res.items)[:len(nop(fres.items))]:
             ctx.violation(f"wsgi|fault|items-not-a-prefix|{r['cls']}", dict(case, fault=f"close-after-{n}"), "")
         ctx.case(("wsgi", repr(r), method, repr(headers), n))
 
